@@ -78,7 +78,7 @@ impl BytesSerializable for GetConsumerOffset {
     }
 
     fn from_bytes(bytes: Bytes) -> Result<GetConsumerOffset, IggyError> {
-        if bytes.len() < 15 {
+        if bytes.len() < 14 {
             return Err(IggyError::InvalidCommand);
         }
 
